@@ -6,6 +6,7 @@ CONSTANTS
   BlockingPosters = {"p2"}
   Drain = FALSE
   QuitEscape = FALSE
+  CloseFirst = TRUE
   SignalPath = TRUE
 SPECIFICATION FairSpec
 INVARIANTS NoGoroutineLeft PerPosterFIFO BlockingNeverDropped
